@@ -264,6 +264,25 @@ func streamVariants() {
 		pairs = append(pairs, pair{mode: "syllable", a: "C[1/4] G_7[3,1/2]", b: "C[" + z + "1/" + z + "4] G_7[" + z + "3," + z + "1/" + z + "2]"},
 			pair{mode: "degree", a: "1[1/4]{bpm=120}", b: "1[" + z + "1/" + z + "4]{bpm=120}"})
 	}
+	// white space so long that a multi-byte sign, or a token, lies across a read-buffer boundary (every power of two
+	// from 512 to 64 KiB, every alignment of the three bytes of the sign), also with other Unicode blanks before it
+	for _, bnd := range []int{512, 1024, 2048, 4096, 8192, 16384, 32768, 65536} {
+		for k := 0; k <= 4; k++ {
+			pad := strings.Repeat(" ", bnd-k)
+			for _, alt := range []string{accSpellings["b"][len(accSpellings["b"])-1], accSpellings["#"][len(accSpellings["#"])-1]} {
+				base := "b"
+				if alt == accSpellings["#"][len(accSpellings["#"])-1] {
+					base = "#"
+				}
+				pairs = append(pairs, pair{mode: "syllable", a: "E" + base + "[1] D/F" + base + "[1]", b: pad + "E" + alt + "[1] D/F" + alt + "[1]"})
+			}
+		}
+	}
+	// blanks other than the ASCII ones, wherever white space may stand (the lexer asks unicode.IsSpace)
+	for _, sp := range []string{"\u00a0", "\u3000", "\u2028", "\u2003", "\v", "\f", "\u0085", "\u1680"} {
+		pairs = append(pairs, pair{mode: "syllable", key: "G", a: "Em[1] D_7/F#[1/2,1]{key=D} A[1]", b: "Em" + sp + "[1]" + sp + "D_7" + sp + "/" + sp + "F#" + sp + "[1/2" + sp + "," + sp + "1]" + sp + "{key=D}" + sp + "A" + sp + "[" + sp + "1" + sp + "]" + sp},
+			pair{mode: "degree", a: "1m7b5[1] 4_sus4[2]", b: "1m7b5" + sp + "[1]" + sp + "4_sus4" + sp + "[2]"})
+	}
 	// the known finding D16 is exercised on purpose so that its matching is tested
 	pairs = append(pairs, pair{mode: "syllable", a: "C_m[1]", b: "C_;x\nm[1]"})
 	type res struct{ a, b runResult }
